@@ -203,19 +203,35 @@ def sink(cfg, crate, rep):
         "Ia5String": ("IA5String", None, "Ia5String::as_str"),
         "Utf8String": ("UTF8String", None, None),
     }
-    seen = {}
+    # the attribute value written for every DnValue variant: the leaves inside the issuer's RDN SET, specialised per
+    # variant (one arm per variant, or one tagged write whose tag and bytes were selected by a match - same thing)
+    from interp import specialise
+    leaves = []
+    place = None
     for n, p, c, r in S.walk(art.tbs):
-        # attribute values: primitive leaves inside an RDN SET (whatever function writes them)
         if n["t"] != "Prim" or n["kind"] == "OID" or not any(lab == "Set" for lab, _ in p):
             continue
-        vs = [a[2] for a in F.atoms(c) if a[0] == "variant" and a[1].endswith("[].1") and "issuer" in a[1]]
-        if not vs:
+        ats = [a for a in F.atoms(c) if a[0] == "variant" and a[1].endswith("[].1") and "issuer" in a[1]]
+        if not ats:
             continue
+        place = ats[0][1]
+        leaves.append((n, p, c))
+    seen = {}
+    adt = crate.adts.get("DnValue") or {}
+    variants = [x["name"] for x in adt.get("variants", [])]
+    for v in variants:
+        asg = {("variant", place, x): (x == v) for x in variants}
+        hit = [(n, p) for n, p, c in leaves if S.pe_formula(c, asg) is True]
+        if len(hit) != 1:
+            continue
+        n, p = hit[0]
         tag = None
         for lab, node in p:
             if lab == "Tagged":
-                tag = S.tag_str(art.I, node["tag"]).replace("[UNIVERSAL ", "").replace("]", "")
-        seen[vs[0]] = (n["kind"], tag, sorted(calls_of(n["args"][0])), n)
+                tv = specialise(node["tag"], asg)
+                tag = S.tag_str(art.I, tv).replace("[UNIVERSAL ", "").replace("]", "")
+        arg = specialise(n["args"][0], asg)
+        seen[v] = (n["kind"], tag, sorted(calls_of(arg)), n)
     for v, (kind, tag, acc) in want.items():
         got = seen.get(v)
         ok = got is not None and got[0] == kind and got[1] == tag and (acc is None or any(x.endswith(acc) for x in got[2]))
